@@ -1,0 +1,13 @@
+//go:build verif
+
+package controllers
+
+import "go.6river.tech/mmmbbb/faults"
+
+// NewFaultInjectorControllerForVerif builds the fault injection controller
+// around the given fault set (the field is unexported and normally supplied by
+// the fx wiring), so that a verification harness can drive the HTTP handlers
+// in-process.
+func NewFaultInjectorControllerForVerif(fs *faults.Set) *FaultInjectorController {
+	return &FaultInjectorController{faults: fs}
+}
